@@ -255,6 +255,8 @@ def run_instance(inst, tier="quick", scratch="/var/tmp", small=False, mutant=Non
         loops = parse_loops(out)
         rc, out = sh(["goto-instrument", "--show-symbol-table", "a.gb"], work, 120, mem, log)
         symbols = parse_symbols(out)
+        if concrete:
+            inst = dict(inst); inst["unwind_loops"] = [{"function": ".*", "loop": l["n"]} for l in loops]
         lfile, ncontracts = build_loop_file(inst, work, loops, symbols)
         if concrete:
             # counterexample search: no loop contracts, loops unwound (small scope) => traces are executions
